@@ -7,3 +7,4 @@ from . import geobox_c  # noqa: F401
 from . import gridspec_c  # noqa: F401
 from . import s3_c  # noqa: F401
 from . import values_c  # noqa: F401
+from . import overlap_c  # noqa: F401
